@@ -14,7 +14,11 @@ open Inj Inj.Lock Inj.Generated.Layout
     mutex is released exactly once. -/
 theorem C04_source_good : GoodParams srcParams := by
   unfold GoodParams SuffixOK
-  decide
+  refine ⟨by decide, by decide, by decide, by decide, by decide, by decide, by decide, ?_⟩
+  intro path hpath
+  have : srcParams.injectorPanicPaths = [] := by decide
+  rw [this] at hpath
+  cases hpath
 
 theorem C04_source_poison_recovered : srcParams.poisonRecovered = true := by decide
 
@@ -124,10 +128,15 @@ theorem C04_release_completes : ∀ (rest : List Field) (s : LState) (t : Nat) (
         simp only [step, hp]
       rw [run_cons_some _ _ _ _ _ hstep]
       exact ih _ t k i how (setPc_same _ _ _)
+    | unknown =>
+      have hstep : step srcParams s (Action.micro t) = some { s with pcs := setPc s.pcs t (Pc.releasing k i r how) } := by
+        simp only [step, hp]
+      rw [run_cons_some _ _ _ _ _ hstep]
+      exact ih _ t k i how (setPc_same _ _ _)
 
 /-- non-vacuity: a two-thread schedule in which thread 1 waits for thread 0 -/
 example : (run srcParams init [Action.acquire 0 Kind.injector, Action.install 0, Action.acquire 1 Kind.preventer,
-    Action.beginRelease 0 How.panic, Action.micro 0, Action.micro 0, Action.micro 0, Action.micro 0,
+    Action.beginRelease 0 How.panic none, Action.micro 0, Action.micro 0, Action.micro 0, Action.micro 0,
     Action.acquire 1 Kind.preventer]).owner = some 1 := by decide
 
 end Inj.Props
